@@ -166,13 +166,15 @@ def g_tune2fs(rng, m, n):
 def g_resize2fs(rng, m, st):
     r = rng.random()
     flags = ["-f"] if rng.random() < .5 else []
-    if r < .45:
+    if r < .6:
         newkb = int(m["kb"] * rng.choice([1.1, 1.25, 1.5, 2.0])) + rng.choice([0, 0, 3, 1024])
+        newkb = max(newkb, (st["dev_len"] - st["offset"] + 1023) // 1024)   # never below the file
+        st["dev_len"] = max(st["dev_len"], st["offset"] + newkb * 1024)
         step = {"tool": "resize2fs", "op": "grow", "flags": flags, "size": "%dK" % newkb,
                 "extend": st["offset"] + newkb * 1024}
         m["kb"] = newkb
         return step
-    if r < .9:
+    if r < .75:
         newkb = int(m["kb"] * rng.choice([.55, .7, .85, .95]))
         m["kb"] = newkb
         return {"tool": "resize2fs", "op": "shrink", "flags": flags, "size": "%dK" % newkb}
@@ -308,7 +310,19 @@ def g_step(rng, m, st, n, allow):
         return g_e2fsck(rng, m)
     if t == "resize2fs":
         return g_resize2fs(rng, m, st)
+    oldbs = m["bs"]
     step, m2 = g_mke2fs(rng, st["dev_len"], 0, n)
+    if rng.random() < .7 and m2["bs"] != oldbs:
+        # mostly keep the block size: a chain that changes it is a (separately keyed) defect class
+        a = step["args"]
+        a[a.index("-b") + 1] = str(oldbs)
+        if "-C" in a:
+            a[a.index("-C") + 1] = str(oldbs * 16)
+        if step["blocks"]:
+            step["blocks"] = step["blocks"] * m2["bs"] // oldbs
+        if "-I" in a and int(a[a.index("-I") + 1]) > oldbs:
+            a[a.index("-I") + 1] = "256"
+        m2["bs"] = oldbs
     m.clear()
     m.update(m2)
     return step
@@ -376,6 +390,8 @@ def gen_chain(seed, idx, bases, phase="chain"):
             j = prep["args"].index("-C")
             prep["args"][j + 1] = "16384"
         m["bs"] = 1024
+        m["kb"] = size // 1024
+        prep["blocks"] = None
         ch["prep"] = prep
         for n in range(rng.choice([2, 3, 3])):
             steps.append(g_step(rng, m, st, n, ["tune2fs", "debugfs", "e2fsck", "tune2fs"]))
@@ -389,6 +405,8 @@ def gen_chain(seed, idx, bases, phase="chain"):
     ch["steps"] = steps
     ch["undo_undo"] = phase == "chain" and rng.random() < .3
     if phase == "abend":
+        keep = [s_ for s_ in steps[:-1] if not (s_["tool"] == "resize2fs" and s_["op"] == "shrink")]
+        ch["steps"] = steps = keep + steps[-1:]
         ch["ab_mode"] = rng.choice(["sim", "kill", "kill", "kill"])
         ch["ab_watch"] = "undo" if rng.random() < .25 else "dev"
         ch["ab_kfrac"] = rng.random()
@@ -538,20 +556,45 @@ def allowed_marking(before, fs_off):
     return al, si
 
 
-def where_diff(ranges, u, fs_off, truncated_at=None):
-    """Classify differing ranges against the undo file's recorded byte ranges."""
+def describe_mismatch(cur, before, orig_len, u, fs_off, trunc_at, allowed=None):
+    """None if cur[:orig_len] == before (up to the `allowed` byte offsets), else a dict that
+    locates the differing ranges: against the undo file's recorded ranges, the primary
+    superblock, and the point where the image file was truncated by a run (if it was)."""
+    if allowed is None and cur[:orig_len] == before:
+        return None
+    rg, n, tot = diff_ranges(cur, before, orig_len, limit=1 << 30)
+    if allowed is not None:
+        rg = [r for r in rg if r[1] - r[0] > 8 or not all(x in allowed for x in range(r[0], r[1]))]
+    if not rg:
+        return None
     rec = sorted((a, a + s) for a, s, _ in u.recorded()) if u else []
     inside = outside = 0
-    for s, e in ranges:
-        hit = any(a < e and s < b for a, b in rec)
-        if hit:
+    for s, e in rg[:2000]:
+        if any(a < e and s < b for a, b in rec):
             inside += 1
         else:
             outside += 1
-    return inside, outside
+    lo, hi = fs_off + 1024, fs_off + 2048
+    return {"ranges": rg[:12], "nranges": len(rg), "bytes": sum(e - s for s, e in rg),
+            "in_recorded": inside, "outside_recorded": outside,
+            "sb_only": all(lo <= s and e <= hi for s, e in rg),
+            "beyond_trunc_only": trunc_at is not None and all(s >= trunc_at for s, e in rg),
+            "trunc_at": trunc_at, "len_now": len(cur), "orig_len": orig_len}
 
 
-def judge_restore(cx, ch, U, before, orig_len, mode, opts=None, tag=""):
+def mm_where(mm):
+    if mm["beyond_trunc_only"]:
+        return "beyond-truncation"
+    if mm["sb_only"]:
+        return "primary-superblock"
+    return "places other than only the primary superblock"
+
+
+TRUNC_KEY = ("C12 %s: a run (resize2fs to a size below the image file's) truncated the image file; "
+             "original bytes beyond the new end are lost to e2undo")
+
+
+def judge_restore(cx, ch, U, before, orig_len, mode, opts=None, tag="", trunc_at=None):
     """Run e2undo U D and judge the device.  mode: 'exact' (last recording run ended
     normally) or 'abnormal'.  Returns (violations [(key, what)], info)."""
     b = cx.b
@@ -584,11 +627,9 @@ def judge_restore(cx, ch, U, before, orig_len, mode, opts=None, tag=""):
                          "runs; offset=%s" % (tag, r.rc, r.sig, offc),
                          "device %s; undo=%s; err=%s" %
                          ("unchanged" if cur == pre else "changed", u.summary(), r.etext[-300:])))
-        if cur[:orig_len] != before:
-            rg, n, tot = diff_ranges(cur, before, orig_len)
-            ins, outs = where_diff(rg, u, fs_off)
-            info["mismatch"] = {"ranges": rg, "nranges": n, "bytes": tot, "in_recorded": ins,
-                                "outside_recorded": outs, "len_now": len(cur)}
+        mm = describe_mismatch(cur, before, orig_len, u, fs_off, trunc_at)
+        if mm:
+            info["mismatch"] = mm
         return viol, info
     # abnormal end
     if (r.rc != 0 or r.sig) and cur == pre:
@@ -610,16 +651,15 @@ def judge_restore(cx, ch, U, before, orig_len, mode, opts=None, tag=""):
         marked_expected = True
     else:
         marked_expected = unfinished
+    if (r.rc != 0 or r.sig) and not u.problems:
+        viol.append(("C12 %sabnormal end: e2undo%s exit status %s (sig %s) on a consistent undo "
+                     "file" % (tag, " -f" if info["forced"] else "", r.rc, r.sig), r.etext[-300:]))
     allowed, si = allowed_marking(before, fs_off) if marked_expected else (set(), None)
-    rg, n, tot = diff_ranges(cur, before, orig_len, limit=200)
-    bad = []
-    for s, e in rg:
-        if not all(x in allowed for x in range(s, e)):
-            bad.append([s, e])
-    if bad or n > 200:
-        ins, outs = where_diff(bad, u, fs_off)
-        info["mismatch"] = {"ranges": bad[:12], "nranges": n, "bytes": tot, "in_recorded": ins,
-                            "outside_recorded": outs, "len_now": len(cur)}
+    mm = describe_mismatch(cur, before, orig_len, u, fs_off, trunc_at, allowed=allowed)
+    if mm:
+        info["mismatch"] = mm
+    if mode == "abnormal" and not marked_expected:
+        info["finished_flag_stale"] = True
     if marked_expected and si is not None:
         now = sb_info(cur, fs_off)
         if now is None:
@@ -627,10 +667,11 @@ def judge_restore(cx, ch, U, before, orig_len, mode, opts=None, tag=""):
         else:
             info["marked"] = not (now["state"] & 1)
             if now["state"] & 1:
-                viol.append(("C12 %sabnormal end: filesystem not marked as needing a check after "
-                             "e2undo; offset=%s" % (tag, offc),
-                             "s_state=0x%x before=0x%x undo=%s rc=%s" %
-                             (now["state"], si["state"], u.summary(), r.rc)))
+                viol.append(("C12 abnormal end: filesystem not marked as needing a check after "
+                             "e2undo of an unfinished undo file; offset=%s" %
+                             ("yes" if fs_off else "none"),
+                             "%s s_state=0x%x before=0x%x undo=%s rc=%s" %
+                             (tag, now["state"], si["state"], u.summary(), r.rc)))
     return viol, info
 
 
@@ -648,6 +689,8 @@ def run_chain(cx, ch, nsteps=None, pool_dir=None, final=True):
     wrote_sets = []
     last_u_touch_normal = True
     uhash = None
+    min_len = orig_len
+    fsbs = set()
     for i, step in enumerate(steps):
         if step.get("extend") and os.path.getsize(cx.D) < step["extend"]:
             os.truncate(cx.D, step["extend"])
@@ -665,6 +708,9 @@ def run_chain(cx, ch, nsteps=None, pool_dir=None, final=True):
         if touched:
             last_u_touch_normal = normal
         u = parse_undo(cx.U, verify=False)
+        min_len = min(min_len, len(cur))
+        if u and touched:
+            fsbs.add(u.fs_block_size)
         res["steps"].append({"tool": step["tool"], "op": step["op"], "rc": r.rc, "sig": r.sig,
                              "normal": normal, "wrote": len(chg), "touched_undo": touched,
                              "keys": u.num_keys if u else 0,
@@ -675,7 +721,9 @@ def run_chain(cx, ch, nsteps=None, pool_dir=None, final=True):
     post = prev
     u = parse_undo(cx.U, verify=os.path.exists(cx.U) and os.path.getsize(cx.U) < (3 << 20))
     res["undo"] = u.summary() if u else None
-    if u and u.problems and last_u_touch_normal:
+    res["fsbs"] = sorted(fsbs)
+    trunc_at = min_len if min_len < orig_len else None
+    if u and u.problems and last_u_touch_normal and u.num_keys and u.block_size:
         res["viol"].append(("C12 chain: undo file of normally ended runs is inconsistent per "
                             "independent parser (%s)" % u.problems[0], str(u.summary())))
     # non-trivial rule
@@ -712,30 +760,37 @@ def run_chain(cx, ch, nsteps=None, pool_dir=None, final=True):
         with open(os.path.join(pool_dir, "before"), "wb") as f:
             f.write(before)
     if ch.get("undo_undo") and mode == "exact" and u and u.num_keys:
+        offc = classify_offset(ch, u)
         r1 = run.run([cx.b.tool("e2undo"), "-z", cx.U2] + e2undo_opts(ch) + [cx.U, cx.D],
                      env=cx.env, timeout=120)
         mid = _read(cx.D)
         res["evid"]["undo_undo"] = 1
-        if r1.rc != 0 or mid[:orig_len] != before:
-            rg, n, tot = diff_ranges(mid, before, orig_len)
+        mm1 = describe_mismatch(mid, before, orig_len, u, ch["offset"], trunc_at)
+        if r1.rc != 0 or (mm1 and not mm1["beyond_trunc_only"]):
             res["viol"].append(("C12 undo-of-undo: e2undo -z U2 U did not restore the original "
-                                "(rc=%s); offset=%s" % (r1.rc, classify_offset(ch, u)),
-                                "ranges %s n=%d bytes=%d" % (rg, n, tot)))
+                                "(rc %s); offset=%s; differing bytes in %s" %
+                                ("0" if r1.rc == 0 else "non-zero", offc,
+                                 mm_where(mm1) if mm1 else "nothing"), "rc=%s %s" % (r1.rc, mm1)))
         else:
             u2 = parse_undo(cx.U2)
             r2 = run.run([cx.b.tool("e2undo")] + e2undo_opts(ch) + [cx.U2, cx.D], env=cx.env,
                          timeout=120)
             back = _read(cx.D)
             if r2.rc != 0 or back[:len(post)] != post:
-                rg, n, tot = diff_ranges(back, post, len(post))
+                mm2 = describe_mismatch(back, post, len(post), u2, ch["offset"], None)
                 res["viol"].append(("C12 undo-of-undo: e2undo U2 did not bring back the post-chain "
-                                    "state (rc=%s); offset=%s" % (r2.rc, classify_offset(ch, u)),
-                                    "ranges %s n=%d bytes=%d undo2=%s" %
-                                    (rg, n, tot, u2.summary() if u2 else None)))
-                # put the post state back so that the final judgement is still meaningful
-                with open(cx.D, "wb") as f:
-                    f.write(post)
-    v, info = judge_restore(cx, ch, cx.U, before, orig_len, mode, tag="chain: ")
+                                    "state (rc %s); offset=%s; differing bytes in %s" %
+                                    ("0" if r2.rc == 0 else "non-zero", offc,
+                                     mm_where(mm2) if mm2 else "nothing"),
+                                    "rc=%s %s undo2=%s" % (r2.rc, mm2, u2.summary() if u2 else None)))
+            else:
+                res["evid"]["undo_undo_ok"] = 1
+        # the final judgement starts from the post-chain state again
+        if _read(cx.D) != post:
+            with open(cx.D, "wb") as f:
+                f.write(post)
+    v, info = judge_restore(cx, ch, cx.U, before, orig_len, mode, tag="chain: ",
+                            trunc_at=trunc_at)
     res["viol"] += v
     res["info"] = {k: info[k] for k in info if k != "mismatch"}
     if info.get("timeout"):
@@ -769,14 +824,13 @@ def mismatch_key(ch, res, p, mode):
         ub = (res.get("undo") or {}).get("block_size") or 0
         offc = "aligned-to-undo-block" if ub and ch["offset"] % ub == 0 else \
             "unaligned-to-undo-block"
-    where = "recorded" if mm["in_recorded"] and not mm["outside_recorded"] else (
-        "unrecorded" if mm["outside_recorded"] and not mm["in_recorded"] else "both")
-    trunc = ""
-    if mm.get("len_now", 1 << 62) < mm.get("orig_len", 0):
-        trunc = " file-truncated"
-    return ("C12 %s: device differs from the original after e2undo; culprit=%s:%s; offset=%s; "
-            "differing bytes in %s ranges%s" % ("chain" if mode == "exact" else "abnormal end",
-                                               step["tool"], step["op"], offc, where, trunc))
+    sr = res["steps"][p - 1] if len(res.get("steps") or []) >= p else {}
+    unrec = sr.get("wrote") and not sr.get("touched_undo")
+    return ("C12 %s: device differs from the original after e2undo; culprit=%s%s; offset=%s; "
+            "fs-block-size-changed-in-chain=%s; differing bytes in %s" %
+            ("chain" if mode == "exact" else "chain with failed last run", step["tool"],
+             " (wrote without touching its -z undo file)" if unrec else "", offc,
+             "yes" if len(res.get("fsbs") or []) > 1 else "no", mm_where(mm)))
 
 
 def w_chain(arg):
@@ -787,11 +841,16 @@ def w_chain(arg):
         cx = Ctx(root, wdir, bases_dir)
         res = run_chain(cx, ch, pool_dir=pool_dir)
         res["chain"] = ch
-        if res.get("mismatch"):
-            res["mismatch"]["orig_len"] = None
+        if res.get("mismatch") and res["mismatch"]["beyond_trunc_only"]:
+            res["viol"] = [v_ for v_ in res["viol"] if "e2undo -n" in v_[0]]
+            res["viol"].append((TRUNC_KEY % "chain", "mismatch %s steps %s" % (
+                res["mismatch"], [(s_["tool"], s_["op"], s_.get("size", "")) for s_ in ch["steps"]])))
+        elif res.get("mismatch"):
             p, rmin = culprit_of(root, wdir, bases_dir, ch)
             use = rmin if rmin else res
             key = mismatch_key(ch, use, p, res.get("mode", "exact"))
+            # one chain, one root cause: keep only the located mismatch (and -n findings)
+            res["viol"] = [v_ for v_ in res["viol"] if "e2undo -n" in v_[0]]
             res["viol"].append((key, "minimal failing prefix: %d of %d steps %s; mismatch %s; "
                                      "undo=%s" % (p, len(ch["steps"]),
                                                   [(s["tool"], s["op"], s.get("args") or
@@ -847,6 +906,7 @@ def w_abend(arg):
             prefix, final = steps[:-1], steps[-1]
             UX = cx.U
         orig_len = len(before)
+        min_len = orig_len
         for step in prefix:
             if step.get("extend") and os.path.getsize(cx.D) < step["extend"]:
                 os.truncate(cx.D, step["extend"])
@@ -854,10 +914,13 @@ def w_abend(arg):
             if r.timed_out:
                 res["inconclusive"] = "timeout"
                 return res
+            min_len = min(min_len, os.path.getsize(cx.D))
         if final.get("extend") and os.path.getsize(cx.D) < final["extend"]:
             os.truncate(cx.D, final["extend"])
         mode = ch["ab_mode"]
         res["mode"] = mode
+        uh0 = _sha(_read(UX)) if os.path.exists(UX) and os.path.getsize(UX) else None
+        dev0 = _read(cx.D)
         res["final"] = "%s:%s" % (final["tool"], final["op"])
         kinfo = None
         if mode == "sim":
@@ -904,6 +967,9 @@ def w_abend(arg):
             res["inconclusive"] = "timeout"
             return res
         res["kill"] = kinfo
+        min_len = min(min_len, os.path.getsize(cx.D))
+        uh1 = _sha(_read(UX)) if os.path.exists(UX) and os.path.getsize(UX) else None
+        untouched = uh1 == uh0 and _read(cx.D) != dev0
         u = parse_undo(UX)
         if u is None or not u.num_keys:
             # nothing recorded yet: nothing may have been written
@@ -920,21 +986,27 @@ def w_abend(arg):
                                 str(u.summary())))
         v, info = judge_restore(cx, ch, UX, before, orig_len, "abnormal",
                                 tag="(%s, %s) " % (mode if mode == "sim" else "kill@" + ch["ab_watch"],
-                                                   final["tool"]))
+                                                   final["tool"]),
+                                trunc_at=min_len if min_len < orig_len else None)
         res["viol"] += v
         res["info"] = {k_: info[k_] for k_ in info if k_ != "mismatch"}
         if info.get("timeout"):
             res["inconclusive"] = "e2undo timeout"
+        if info.get("finished_flag_stale"):
+            res["evid"]["killed_run_left_finished_flag"] = 1
         if info.get("mismatch"):
             mm = info["mismatch"]
-            where = "recorded" if mm["in_recorded"] and not mm["outside_recorded"] else (
-                "unrecorded" if mm["outside_recorded"] and not mm["in_recorded"] else "both")
-            res["viol"].append((
-                "C12 abnormal end (%s, %s:%s): device differs from the original beyond s_state/"
-                "s_checksum after e2undo; offset=%s; differing bytes in %s ranges" %
-                (mode if mode == "sim" else "kill@" + ch["ab_watch"], final["tool"], final["op"],
-                 classify_offset(ch, u), where),
-                "mismatch %s kill=%s forced=%s undo=%s" % (mm, kinfo, info.get("forced"), u.summary())))
+            if mm["beyond_trunc_only"]:
+                res["viol"].append((TRUNC_KEY % "abnormal end", "mismatch %s" % mm))
+            else:
+                res["viol"].append((
+                    "C12 abnormal end (%s%s): device differs from the original beyond s_state/"
+                    "s_checksum after e2undo; offset=%s; differing bytes in %s" %
+                    (final["tool"],
+                     " wrote without touching its -z undo file" if untouched else "",
+                     classify_offset(ch, u), mm_where(mm)),
+                    "mode %s final run %s:%s mismatch %s kill=%s forced=%s undo=%s" %
+                    (mode, final["tool"], final["op"], mm, kinfo, info.get("forced"), u.summary())))
         res["nontrivial"] = json.dumps([ch["kind"], ch["base"], res["final"], mode,
                                         kinfo["watch"] if kinfo else None,
                                         kinfo["k"] if kinfo else None])
@@ -1029,7 +1101,7 @@ def w_foreign(arg):
         shutil.rmtree(wdir, ignore_errors=True)
 
 
-def plan_positions(u, rng, budget, exhaustive):
+def plan_positions(u, rng, budget, exhaustive, cap):
     """Bit positions (file bit offsets) to damage in one undo file."""
     by = {}
     for a, b_, k in u.regions:
@@ -1059,17 +1131,19 @@ def plan_positions(u, rng, budget, exhaustive):
         return sorted(chosen)
 
     pos = []
-    if exhaustive:
+    full = sum(nbits(groups[g]) for g in ("hdr", "sb", "key"))
+    if exhaustive and full <= cap:
         for g in ("hdr", "sb", "key"):
             pos += pick(groups[g], nbits(groups[g]))
-        left = budget - len(pos)
+        left = min(cap, budget) - len(pos)
         if left > 0:
             pos += pick(groups["data"], left * 2 // 3) + pick(groups["slack"], left // 3)
-        return pos[:max(budget, 0)] if len(pos) > budget else pos
+        return pos, True
+    budget = min(budget, cap)
     share = {"hdr": .25, "sb": .12, "key": .35, "data": .18, "slack": .10}
     for g, s in share.items():
         pos += pick(groups[g], int(budget * s))
-    return pos
+    return pos, False
 
 
 # ------------------------------------------------------------------ bases / shim
@@ -1105,6 +1179,8 @@ RULE = ("chains of 1-5 recorded runs appended to one undo file; non-trivial chai
 
 
 def main(tier, seed, replay=None, scale=1.0):
+    if replay:
+        tier = json.load(open(os.path.join(replay, "case.json"))).get("tier", tier)
     rep = report.Report("C12", tier, seed, "exploration+fault_enumeration", rule=RULE)
     b = build.get_build("plain")
     bud = {k: max(2, int(v * scale)) for k, v in BUDGET[tier].items()}
@@ -1169,11 +1245,10 @@ def main(tier, seed, replay=None, scale=1.0):
             meta = []
             left = bud["damage"]
             for pi, (pidx, pd, u) in enumerate(pool):
-                pos = plan_positions(u, rng, min(per, left) if tier == "quick" else left,
-                                     exhaustive=(tier == "thorough"))
-                if tier == "thorough" and len(pos) > left:
-                    pos = pos[:left]
+                pos, exh = plan_positions(u, rng, per, tier == "thorough", left)
                 left -= len(pos)
+                if exh:
+                    rep.count("damage_files_exhaustive_hdr_sb_key")
                 rep.add("pool_files", {"pool_idx": pidx, "block_size": u.block_size,
                                        "keys": u.num_keys, "key_blocks": len(u.keyblocks)})
                 for c in range(0, len(pos), 64):
@@ -1298,6 +1373,8 @@ def absorb_abend(rep, res, seed):
             rep.count("abend_no_filesystem_to_mark")
         if not res["viol"]:
             rep.count("abend_restored")
+        for k_, v_ in res.get("evid", {}).items():
+            rep.count("abend_" + k_, v_)
         u = res.get("undo")
         if u:
             rep.add("undo_block_sizes", u["block_size"])
